@@ -238,8 +238,11 @@ func assignOne(destValue reflect.Value, taken any, to string) (reflect.Value, er
 	var (
 		toPaths           = splitFieldPath(to)
 		originalDestValue = destValue
-		parentMap         reflect.Value
-		parentKey         string
+		// the innermost map entry the walk has descended into: the entry's value may be a copy (a struct held by value),
+		// so it is stored back under its key once the mapping has been assigned somewhere below it
+		parentMap   reflect.Value
+		parentKey   string
+		parentEntry reflect.Value
 	)
 
 	for {
@@ -272,7 +275,7 @@ func assignOne(destValue reflect.Value, taken any, to string) (reflect.Value, er
 				}
 
 				if parentMap.IsValid() {
-					parentMap.SetMapIndex(reflect.ValueOf(parentKey), destValue)
+					parentMap.SetMapIndex(reflect.ValueOf(parentKey), parentEntry)
 				}
 
 				return originalDestValue, nil
@@ -290,7 +293,7 @@ func assignOne(destValue reflect.Value, taken any, to string) (reflect.Value, er
 			}
 
 			if parentMap.IsValid() {
-				parentMap.SetMapIndex(reflect.ValueOf(parentKey), destValue)
+				parentMap.SetMapIndex(reflect.ValueOf(parentKey), parentEntry)
 			}
 
 			return originalDestValue, nil
@@ -326,17 +329,17 @@ func assignOne(destValue reflect.Value, taken any, to string) (reflect.Value, er
 			}
 
 			if parentMap.IsValid() {
-				parentMap.SetMapIndex(reflect.ValueOf(parentKey), destValue)
+				parentMap.SetMapIndex(reflect.ValueOf(parentKey), parentEntry)
 			}
 
 			parentMap = destValue
 			parentKey = path
+			parentEntry = valueValue
 			destValue = valueValue
 
 			continue
 		}
 
-		ptrValue := destValue
 		for destValue.Kind() == reflect.Ptr {
 			if destValue.IsNil() {
 				return destValue, fmt.Errorf("field mapping to a struct field, but an intermediate pointer is nil, type=%v", destValue.Type())
@@ -358,12 +361,6 @@ func assignOne(destValue reflect.Value, taken any, to string) (reflect.Value, er
 		}
 
 		instantiateIfNeeded(field)
-
-		if parentMap.IsValid() {
-			parentMap.SetMapIndex(reflect.ValueOf(parentKey), ptrValue)
-			parentMap = reflect.Value{}
-			parentKey = ""
-		}
 
 		destValue = field
 	}
